@@ -66,9 +66,8 @@ Fixpoint live_values (vals : list Q) (dead : list bool) : list Q :=
 
 (** result code in the Z component when the boolean is false:
     -1 model refuses / impl returns (or the reverse), -2 shape, -3 mask, -4 labels, -5 folded flag, -6 nan pattern *)
-Definition pcheck (tol : Q) (c : pcase) : bool * Z :=
-  let a := of_flat (pc_shape c) (pc_data c) (pc_mask c) (pc_ids c) (pc_folded c) in
-  match run_op (pc_op c) a with
+Definition pcheck_body (tol : Q) (c : pcase) (poison : idx -> bool) (res : option (spec Q)) : bool * Z :=
+  match res with
   | None => if pc_ok c then (false, (-1)%Z) else (true, (-10000)%Z)
   | Some r =>
     if negb (pc_ok c) then (false, (-1)%Z) else
@@ -77,7 +76,7 @@ Definition pcheck (tol : Q) (c : pcase) : bool * Z :=
     if negb (bools_eqb mm (pc_omask c)) then (false, (-3)%Z) else
     if negb (ids_eqb (ids r) (pc_oids c)) then (false, (-4)%Z) else
     if negb (Bool.eqb (fo r) (pc_ofolded c)) then (false, (-5)%Z) else
-    let po := map (poison_of (pc_op c) a) (indices (sh r)) in
+    let po := map poison (indices (sh r)) in
     let expect_nan := map (fun p => snd p && negb (fst p)) (combine mm po) in
     let got_nan := map (fun p => snd p && negb (fst p)) (combine mm (pc_onan c)) in
     if negb (bools_eqb expect_nan got_nan) then (false, (-6)%Z) else
@@ -85,22 +84,85 @@ Definition pcheck (tol : Q) (c : pcase) : bool * Z :=
     Qlists_close tol (live_values (flat_values r) dead) (live_values (pc_odata c) dead)
   end.
 
+Definition pcase_input (c : pcase) : spec Q :=
+  of_flat (pc_shape c) (pc_data c) (pc_mask c) (pc_ids c) (pc_folded c).
+
+Definition pcheck (tol : Q) (c : pcase) : bool * Z :=
+  let a := pcase_input c in pcheck_body tol c (poison_of (pc_op c) a) (run_op (pc_op c) a).
+
 (** the conclusions of the static theorems evaluated on the Q instance for the same input
     (a divergence between the R and the Q reading of the model would show here):
     total conserved for mask-free input by marginalize / reorder / combine / Misc.combine / scramble *)
-Definition ptotal_check (c : pcase) : bool :=
-  let a := of_flat (pc_shape c) (pc_data c) (map (fun _ => false) (pc_mask c)) (pc_ids c) false in
-  let o := match pc_op c with
-           | OpMarg over _ => OpMarg over false
-           | OpFilter keep => OpMarg (match filter_toremove (length (pc_shape c)) keep with Some l => l | None => [] end) false
-           | OpScramble _ => OpScramble false
-           | x => x
-           end in
-  match run_op o a with
+Definition ptotal_input (c : pcase) : spec Q :=
+  of_flat (pc_shape c) (pc_data c) (map (fun _ => false) (pc_mask c)) (pc_ids c) false.
+Definition ptotal_op (c : pcase) : popop :=
+  match pc_op c with
+  | OpMarg over _ => OpMarg over false
+  | OpFilter keep => OpMarg (match filter_toremove (length (pc_shape c)) keep with Some l => l | None => [] end) false
+  | OpScramble _ => OpScramble false
+  | x => x
+  end.
+Definition ptotal_body (a : spec Q) (res : option (spec Q)) : bool :=
+  match res with
   | None => true
   | Some r => Qeq_bool (total r) (total a)
   end.
+Definition ptotal_check (c : pcase) : bool :=
+  let a := ptotal_input c in ptotal_body a (run_op (ptotal_op c) a).
 
 Definition pcheck_full (tol : Q) (c : pcase) : bool * Z :=
   let r := pcheck tol c in
   if fst r then (if ptotal_check c then r else (false, (-7)%Z)) else r.
+
+(** ** the same check, affordable for large sample sizes
+    [binomZ] follows Pascal's rule literally (exponentially many additions: C(40,20) alone is out of reach of vm_compute);
+    the correspondence files of the large cases evaluate the same re-dealing weights through rows of Pascal's triangle.
+    Nothing else changes.  Proofs/PopOpsScramble.v proves [binomZ_fast n k = binomZ n k] for all n, k and
+    [pcheck_full_fast tol c = pcheck_full tol c] for every case (Props/C10.v: C10_fast_binomials_are_the_binomials,
+    C10_fast_check_is_the_check), so a verdict of [pcheck_full_fast] IS the verdict of the model. *)
+Fixpoint pascal_next (prev : Z) (r : list Z) : list Z :=
+  match r with
+  | [] => [prev]
+  | x :: t => (prev + x)%Z :: pascal_next x t
+  end.
+Fixpoint pascal_row (n : nat) : list Z :=
+  match n with O => [1%Z] | S n' => pascal_next 0%Z (pascal_row n') end.
+Definition binomZ_fast (n k : nat) : Z := nth k (pascal_row n) 0%Z.
+
+(** the rows are computed once per spectrum *)
+Definition deal_prob_rows (rows : list (list Z)) (prow : list Z) (c : idx) : Q :=
+  ndiv (nofZ (fold_right Z.mul 1%Z (map (fun p => nth (snd p) (fst p) 0%Z) (combine rows c))))
+       (nofZ (nth (isum c) prow 0%Z)).
+Definition scramble_unfolded_fast (mc : bool) (a : spec Q) : spec Q :=
+  let pl := pooled a in
+  let s := sh a in
+  let rows := map (fun x => pascal_row (pred x)) s in
+  let prow := pascal_row (nsamp s) in
+  {| sh := s; va := fun c => nmul (deal_prob_rows rows prow c) (pl [isum c]);
+     mk := fun c => if mc then is_corner s c else false; ids := None; fo := false |}.
+Definition scramble_pop_ids_fast (mc : bool) (a : spec Q) : spec Q :=
+  if fo a then fold (scramble_unfolded_fast mc (unfold a)) else scramble_unfolded_fast mc a.
+Definition run_op_fast (o : popop) (a : spec Q) : option (spec Q) :=
+  match o with
+  | OpScramble mc => Some (scramble_pop_ids_fast mc a)
+  | _ => run_op o a
+  end.
+(** [pooled_poison a t] scans every entry (looking its mask up) for every t; here the totals of the masked entries are listed once *)
+Definition poison_totals (a : spec Q) : list nat :=
+  map (fun p => isum (fst p)) (filter (fun p => snd p) (combine (indices (sh a)) (flat_mask a))).
+Definition scramble_poison_fast (a : spec Q) : idx -> bool :=
+  if fo a then let u := unfold a in let pt := poison_totals u in
+               fun c => memb (isum c) pt || memb (isum (rev_idx (sh a) c)) pt
+  else let pt := poison_totals a in fun c => memb (isum c) pt.
+Definition poison_of_fast (o : popop) (a : spec Q) : idx -> bool :=
+  match o with
+  | OpScramble _ => scramble_poison_fast a
+  | _ => fun _ => false
+  end.
+Definition pcheck_fast (tol : Q) (c : pcase) : bool * Z :=
+  let a := pcase_input c in pcheck_body tol c (poison_of_fast (pc_op c) a) (run_op_fast (pc_op c) a).
+Definition ptotal_check_fast (c : pcase) : bool :=
+  let a := ptotal_input c in ptotal_body a (run_op_fast (ptotal_op c) a).
+Definition pcheck_full_fast (tol : Q) (c : pcase) : bool * Z :=
+  let r := pcheck_fast tol c in
+  if fst r then (if ptotal_check_fast c then r else (false, (-7)%Z)) else r.
